@@ -44,10 +44,40 @@ package mdns
 //@   ensures [C16] L6-identity: result.ski == ski && result.identifier == shipIdentifier && result.port == port && result.serviceName == serviceName
 //@   ensures result.entries != nil
 //@   establishes result
+// ---- announcing (C16): what is published is the current configuration, field by field ----
+// $txtAnnounced: the TXT list most recently handed to the provider; $announces: how often
+//@ ghost field Provider.$announces int
+//@ iface api.MdnsProviderInterface.Announce(serviceName, port, txt)
+//@   ensures this.$announces == old(this.$announces) + 1
+//@   modifies this.$announces
+//@ iface api.MdnsProviderInterface.Unannounce()
+//@ func (m *MdnsManager).deviceCategoriesString(categories) pure [C08]
+//@ loop (m *MdnsManager).deviceCategoriesString #0
+//@   invariant true
+//@ func (m *MdnsManager).AnnounceMdnsEntry() entry [C16]
+//@   atcall Announce [C16] A1-mandatory: len($2) >= 8 && $2[0] == "txtvers=1" && $2[1] == "path=/ship/" && $2[2] == "id=" + m.identifier && $2[3] == "ski=" + m.ski && $2[4] == "brand=" + m.deviceBrand && $2[5] == "model=" + m.deviceModel && $2[6] == "type=" + m.deviceType
+//@   atcall Announce [C16] A2-register: $2[7] == ite(m.autoaccept, "register=true", "register=false")
+//@   atcall Announce [C16] A3-service: $0 == m.serviceName && $1 == m.port
+//@   ensures [C16] A4-published: m.mdnsProvider != nil ==> m.mdnsProvider.$announces == old(m.mdnsProvider.$announces) + 1
+//@   modifies m.isAnnounced, m.mdnsProvider.$announces
+// a change of the auto-accept flag while announced is published at once: the TXT record never shows a stale flag
+//@ func (m *MdnsManager).SetAutoAccept(accept) entry [C16]
+//@   ensures [C16] A5-flag: m.autoaccept == accept
+//@   ensures [C16] A6-republished: old(m.isAnnounced) && m.mdnsProvider != nil ==> m.mdnsProvider.$announces == old(m.mdnsProvider.$announces) + 1
+//@   modifies m.autoaccept, m.isAnnounced, m.mdnsProvider.$announces
 //@ func parseTxt(txt) [C08,C16]
 //@   ensures result != nil
-//@ func (m *MdnsManager).copyMdnsEntries() [C08]
+// C17: what is reported is a snapshot - a new map of new entries - so nothing the receiver does with it (the hub
+// replaces and sorts address lists) reaches the manager's own set of known services
+//@ func (m *MdnsManager).copyMdnsEntries() [C08,C17]
 //@   requires forall k: string :: k in m.entries ==> m.entries[k] != nil
+//@   ensures [C17] R1-copy: fresh(result) && (forall k: string :: k in result ==> fresh(result[k]))
+//@   modifies $decoded
+//@ loop (m *MdnsManager).copyMdnsEntries #0
+//@   invariant fresh(mdnsEntries) && (forall k: string :: k in mdnsEntries ==> fresh(mdnsEntries[k]))
+//@ func (m *MdnsManager).RequestMdnsEntries() entry [C17]
+//@   requires forall k: string :: k in m.entries ==> m.entries[k] != nil
+//@   atcall ReportMdnsEntries [C17] R2-snapshot: fresh($0) && (forall k: string :: k in $0 ==> fresh($0[k]))
 //@   modifies $decoded
 // what the resolver must deliver for a record to count (SHIP 7.3.2): mandatory keys, version 1, boolean register, not ourselves
 // C17 address clause (each usable address once, no IPv6 link-local): quantified invariants over the nested
@@ -59,6 +89,7 @@ package mdns
 //@ macro SKI() := elements["ski"]
 //@ macro OTHERS() := (forall j: string :: j != @SKI() ==> (j in m.entries) == (j in old(m.entries)) && m.entries[j] == old(m.entries[j]))
 //@ func (m *MdnsManager).processMdnsEntry(elements, name, host, addresses, port, remove) entry [C08,C17,C16]
+//@   atcall ReportMdnsEntries [C17] R2-snapshot: fresh($0) && (forall k: string :: k in $0 ==> fresh($0[k]))
 //@   ensures [C17] V1-ignored: !@VALID() ==> (forall j: string :: (j in m.entries) == (j in old(m.entries)) && m.entries[j] == old(m.entries[j]))
 //@   ensures [C17] V2-removed: @VALID() && remove ==> !(@SKI() in m.entries) && @OTHERS()
 //@   ensures [C17] V3-known: @VALID() && !remove ==> @SKI() in m.entries && @OTHERS()
